@@ -67,7 +67,8 @@ theorem pinned_loses_closing_edge :
 /-- in polygon mode the result is exactly one straight edge per vertex pair, in order -/
 theorem recon_flat [DecidableEq S] (lut : V × V → Option S) (line : V → V → S) (poly : List V) :
     recon lut line true poly = (wrapEdges poly).map fun p => line p.1 p.2 := by
-  unfold recon
+  unfold recon cyclicTrim
+  simp only [Bool.true_eq_false, false_and, if_false]
   have key : ∀ (es : List (V × V)) (acc : List S),
       reconWalk lut line true acc es = acc ++ es.map fun p => line p.1 p.2 := by
     intro es
@@ -85,6 +86,14 @@ theorem recon_members [DecidableEq S] (lut : V × V → Option S) (line : V → 
     ∀ x ∈ recon lut line flat poly,
       (∃ k, lut k = some x) ∨ (∃ p ∈ wrapEdges poly, x = line p.1 p.2) := by
   unfold recon
+  suffices hs : ∀ x ∈ reconWalk lut line flat [] (wrapEdges poly),
+      (∃ k, lut k = some x) ∨ (∃ p ∈ wrapEdges poly, x = line p.1 p.2) by
+    intro x hx
+    apply hs
+    unfold cyclicTrim at hx
+    split at hx
+    · exact List.dropLast_subset _ hx
+    · exact hx
   have key : ∀ (es : List (V × V)) (acc : List S),
       (∀ x ∈ acc, (∃ k, lut k = some x) ∨ (∃ p ∈ wrapEdges poly, x = line p.1 p.2)) →
       (∀ p ∈ es, p ∈ wrapEdges poly) →
@@ -119,6 +128,23 @@ theorem recon_members [DecidableEq S] (lut : V × V → Option S) (line : V → 
           · simp at h; subst h; exact Or.inl horig
         · exact ih _ hacc hes' x hx
   exact key (wrapEdges poly) [] (by simp) (fun p hp => hp)
+
+/-- **no cyclic repeat** (curve-preserving mode): a result contour with more than one segment does not end with the
+    segment it starts with -/
+theorem recon_no_cyclic_repeat [DecidableEq S] (lut : V × V → Option S) (line : V → V → S) (poly : List V)
+    (h : (reconUntrimmed lut line false poly).getLast? = (reconUntrimmed lut line false poly).head?)
+    (hl : 1 < (reconUntrimmed lut line false poly).length) :
+    recon lut line false poly = (reconUntrimmed lut line false poly).dropLast := by
+  unfold recon cyclicTrim reconUntrimmed at *
+  rw [if_pos ⟨rfl, hl, h⟩]
+
+/-- the first repair alone repeated the starting segment: a contour whose vertex list starts in the middle of a
+    curve's flattening (edges 1→2 and 3→1 on the curve `7`, edge 2→3 on `8`) came back as [7, 8, 7] -/
+theorem untrimmed_repeats_first :
+    reconUntrimmed (fun k : Nat × Nat => if k = (1, 2) ∨ k = (3, 1) then some 7 else if k = (2, 3) then some 8 else none)
+      (fun _ _ => 0) false [1, 2, 3] = [7, 8, 7] ∧
+    recon (fun k : Nat × Nat => if k = (1, 2) ∨ k = (3, 1) then some 7 else if k = (2, 3) then some 8 else none)
+      (fun _ _ => 0) false [1, 2, 3] = [7, 8] := by decide
 
 /-- an empty clipper answer gives no paths (the outer loop runs over the polygons) -/
 theorem no_polygons_no_paths [DecidableEq S] (lut : V × V → Option S) (line : V → V → S) (flat : Bool) :
